@@ -62,10 +62,11 @@ fn ascii_str<const N: usize>(buf: &mut [u8; N]) -> &str {
         buf[i] = b;
         i += 1;
     }
-    core::str::from_utf8(&buf[..len]).unwrap()
+    // every byte is < 128 (assumed above), hence valid UTF-8; the validation loop is kept out of the formula
+    unsafe { core::str::from_utf8_unchecked(&buf[..len]) }
 }
 
-// @ob tier=quick timeout=1800 mem=12
+// @ob tier=thorough timeout=5400 mem=14
 // @desc format-string iterator, one step from a fresh iterator over ANY ASCII string (strict and lenient): next() never panics, and whenever it returns an item the pair (unconsumed bytes, queued items) has strictly decreased lexicographically -- so iteration ends after at most one item per input byte plus the longest composite expansion (finding F3 on the original tree: strict mode re-read "%Q" forever)
 // @bounds format strings up to 5 bytes, all ASCII byte values (unwind 8); the step reads at most 4 bytes ahead, longer strings are covered by the inductive argument on suffixes
 // @funcs StrftimeItems::{new, new_lenient, next, parse_next_item, error}, hook StrftimeItems::verif_measure
@@ -97,7 +98,7 @@ fn c15_strftime_step_ascii() {
     }
 }
 
-// @ob tier=quick timeout=1800 mem=12
+// @ob tier=thorough timeout=5400 mem=14
 // @desc same step obligation with a multi-byte scalar: a 2-byte, 3-byte or 4-byte UTF-8 character at any position of an otherwise ASCII string (slicing must stay on character boundaries: no panic)
 // @bounds strings of one multi-byte scalar (U+00E9, U+2212, U+1F63D) plus up to 3 ASCII bytes before/after in total (unwind 9)
 // @funcs StrftimeItems::{new, new_lenient, next, parse_next_item, error}
@@ -158,4 +159,75 @@ fn c15_strftime_step_multibyte() {
         steps += 1;
     }
     kani::cover!(pre == 1 && buf[0] == b'%');
+}
+
+// @ob tier=quick timeout=900 mem=10
+// @desc quick instance of the iterator step obligation: fresh iterator over any ASCII string of up to 3 bytes (strict and lenient): no panic, and a returned item strictly decreases (unconsumed bytes, queued items) -- covers "%", "%Q", "%-Q", "%#Q", "%.3", "%:z" (finding F3 on the original tree)
+// @bounds format strings up to 3 bytes, all ASCII byte values (unwind 6); longer strings: c15_strftime_step_ascii (thorough)
+// @funcs StrftimeItems::{new, new_lenient, next, parse_next_item, error}, hook StrftimeItems::verif_measure
+#[kani::proof]
+#[kani::unwind(6)]
+fn c15_strftime_step_short() {
+    let mut buf = [0u8; 3];
+    let s = ascii_str(&mut buf);
+    let lenient: bool = kani::any();
+    let mut it = if lenient { StrftimeItems::new_lenient(s) } else { StrftimeItems::new(s) };
+    let before = it.verif_measure();
+    let item = it.next();
+    let after = it.verif_measure();
+    match item {
+        Some(ref i) => {
+            assert!(after.0 < before.0 || (after.0 == before.0 && after.1 < before.1));
+            kani::cover!(matches!(i, Item::Error));
+            kani::cover!(after.1 > 0);
+        }
+        None => assert!(s.is_empty()),
+    }
+}
+
+#[cfg(kani)]
+fn range_end_datetime() -> DateTime<FixedOffset> {
+    // a UTC reading within the last or first representable day, any offset: the wall clock may lie in the headroom day
+    let at_max: bool = kani::any();
+    let secs: u32 = kani::any();
+    kani::assume(secs < 86_400);
+    let t = NaiveTime::from_num_seconds_from_midnight_opt(secs, 0).unwrap();
+    let u = if at_max { NaiveDate::MAX.and_time(t) } else { NaiveDate::MIN.and_time(t) };
+    any_offset().from_utc_datetime(&u)
+}
+
+// @ob tier=quick timeout=900 mem=10
+// @desc DurationRound on DateTime<FixedOffset> at both ends of the range (wall clock possibly in the one-day headroom beyond MIN/MAX): duration_trunc / duration_round / duration_round_up return a Result (here always Err: outside the i64-nanosecond window) and never panic (finding F6 on the original tree: naive_local() panicked first)
+// @bounds UTC readings within the first and last representable day (second resolution) x all offsets x the spans 1 s and 1 day
+// @funcs impl DurationRound for DateTime<Tz>, DateTime::overflowing_naive_local, duration_trunc/round/round_up (error paths)
+#[kani::proof]
+fn c15_round_range_ends() {
+    use chrono::DurationRound;
+    let dt = range_end_datetime();
+    let span = if kani::any() { TimeDelta::try_seconds(1).unwrap() } else { TimeDelta::try_days(1).unwrap() };
+    let a = dt.duration_trunc(span);
+    let b = dt.duration_round(span);
+    let c = dt.duration_round_up(span);
+    assert!(a.is_err() && b.is_err() && c.is_err());
+    kani::cover!(dt.offset().local_minus_utc() > 0);
+}
+
+// @ob tier=quick timeout=1800 mem=12
+// @desc the RFC 3339 renderers at both ends of the range: to_rfc3339 and to_rfc3339_opts (every precision, with and without Z) return normally -- never panic -- also when the wall-clock reading lies in the headroom day beyond MIN/MAX (finding F7 on the original tree: to_rfc3339_opts called naive_local())
+// @bounds UTC readings within the first and last representable day x all offsets x 5 precisions x use_z; text goes to a String (alloc model of Kani)
+// @funcs DateTime::{to_rfc3339, to_rfc3339_opts}, write_rfc3339, OffsetFormat::format
+#[kani::proof]
+#[kani::unwind(12)]
+fn c15_rfc3339_range_ends() {
+    use chrono::SecondsFormat;
+    let dt = range_end_datetime();
+    let which: u8 = kani::any();
+    kani::assume(which < 5);
+    let sf = match which { 0 => SecondsFormat::Secs, 1 => SecondsFormat::Millis, 2 => SecondsFormat::Micros, 3 => SecondsFormat::Nanos, _ => SecondsFormat::AutoSi };
+    let s = dt.to_rfc3339_opts(sf, kani::any());
+    assert!(s.len() >= 20);
+    core::mem::forget(s);
+    let s2 = dt.to_rfc3339();
+    core::mem::forget(s2);
+    kani::cover!(dt.offset().local_minus_utc() < 0);
 }
